@@ -613,19 +613,27 @@ package rapid
 //@   panics any: len(t.cleanups) >= old(len(t.cleanups)) && implies(old(t.failed) != "", t.failed != "") && drawn >= old(drawn) && unlocked(t) && sameOrNewArr(t)
 //@   modifies t.failed, t.cleanups, elems(t.cleanups), t.draws, t.attempts, drawn
 
+// cbFalsified: a cleanup function has ended by a panic that is not a skip (since the outermost cleanup() began)
+//@ ghost cbFalsified Bool
+
 //@ func (*T).cleanup
 //@   requires [C10,C14] unlocked(t) && ctxInv(t)
-//@   ensures [C10,C11] len(t.cleanups) == 0 && t.ctx == nil && t.cancelCtx == nil && !cleaning(t)
+//   A failure of a cleanup function is not hidden by a skip of another one (C02): once a cleanup function has panicked
+//   with a non-skip value, the panic that leaves cleanup() is not a skip.
+//@   at cleanup#0 onpanic cbFalsified = cbFalsified || !isInvalidData(panicval)
+//@   ensures [C02] implies(!old(cbFalsified), !cbFalsified)
+//@   ensures [C10,C11,C14] len(t.cleanups) == 0 && t.ctx == nil && t.cancelCtx == nil && !cleaning(t)
 //@   ensures [C14] unlocked(t)
 //@   ensures [C10] implies(old(t.ctx) != nil, cancelled[old(t.ctx)])
 //@   ensures [C02] implies(old(t.failed) != "", t.failed != "")
 //@   ensures [C10] sameOrNewArr(t) && drawn >= old(drawn)
-//@   panics any [C10,C11]: drawn >= old(drawn) && sameOrNewArr(t) && len(t.cleanups) == 0 && t.ctx == nil && t.cancelCtx == nil && !cleaning(t) && unlocked(t) && implies(old(t.ctx) != nil, cancelled[old(t.ctx)]) && implies(old(t.failed) != "", t.failed != "")
-//@   modifies t.failed, t.cleanups, elems(t.cleanups), t.ctx, t.cancelCtx, t.cleaning.v, t.draws, t.attempts, drawn, cancelled[t.ctx], lockmode[addr(t.mu)]
+//@   panics any [C10,C11,C14]: drawn >= old(drawn) && sameOrNewArr(t) && len(t.cleanups) == 0 && t.ctx == nil && t.cancelCtx == nil && !cleaning(t) && unlocked(t) && implies(old(t.ctx) != nil, cancelled[old(t.ctx)]) && implies(old(t.failed) != "", t.failed != "") && implies(!old(cbFalsified) && cbFalsified, !isInvalidData(panicval))
+//@   modifies t.failed, t.cleanups, elems(t.cleanups), t.ctx, t.cancelCtx, t.cleaning.v, t.draws, t.attempts, drawn, cancelled[t.ctx], lockmode[addr(t.mu)], cbFalsified
 //   LIFO (C10): the callback run is the one just popped from the top of the stack - the element right above the
 //   new top in the same backing array.
 //@   at cleanup#0 assert [C10] fnval == t.cleanups[len(t.cleanups)]
 //@   loop 0 invariant [C10,C14] unlocked(t) && t.ctx == nil && t.cancelCtx == nil && cleaning(t)
+//@   loop 0 invariant [C02] cbFalsified == old(cbFalsified)
 //@   loop 0 invariant [C10] implies(old(t.ctx) != nil, cancelled[old(t.ctx)]) && implies(old(t.failed) != "", t.failed != "") && sameOrNewArr(t) && drawn >= old(drawn)
 
 //@ func newT
@@ -645,6 +653,8 @@ package rapid
 // cleanupSkipped: the cleanup phase of that test case ended by a skip (invalid data) raised from a cleanup callback.
 //@ ghost propFalsified Bool
 //@ ghost cleanupSkipped Bool
+// cleanupFalsified: the cleanup phase of that test case ended by a panic that is not a skip
+//@ ghost cleanupFalsified Bool
 
 //@ func checkOnce
 //@   noframe "runs the property function"
@@ -657,17 +667,23 @@ package rapid
 //@   at prop#0 set cleanupSkipped = false
 //@   at prop#0 onpanic cleanupSkipped = false
 //@   at t.cleanup#0 onpanic cleanupSkipped = isInvalidData(panicval)
+//@   at prop#0 set cleanupFalsified = false
+//@   at prop#0 set cbFalsified = false
+//@   at prop#0 onpanic cbFalsified = false
+//@   at prop#0 onpanic cleanupFalsified = false
+//@   at t.cleanup#0 onpanic cleanupFalsified = !isInvalidData(panicval)
+//@   ensures [C02] implies(cleanupFalsified, result != nil && !isInvalidData(result.data))
 //@   ensures [C02] implies(propFalsified && !cleanupSkipped, result != nil && !isInvalidData(result.data))
 //@   ensures [C02] implies(propFalsified && cleanupSkipped, result != nil && !isInvalidData(result.data))
 //@   requires [C10,C11] clean(t) && unlocked(t) && prop != nil
 //@   ensures [C10,C11] len(t.cleanups) == 0 && t.ctx == nil && t.cancelCtx == nil && !cleaning(t) && unlocked(t)
-//@   ensures [C02,C11,C13] implies(result == nil, t.failed == "")
-//@   ensures [C02,C11,C13] implies(result != nil && isInvalidData(result.data), t.failed == "")
+//@   ensures [C02,C09,C11,C13] implies(result == nil, t.failed == "")
+//@   ensures [C02,C09,C11,C13] implies(result != nil && isInvalidData(result.data), t.failed == "")
 //@   ensures [C02] implies(result != nil, fresh(result))
 //@   ensures [C05] implies(result != nil, result.traceback != "    <no error>\n")
 //@   ensures drawn >= old(drawn)
 //@   ensures [C05] streamRely(t.s)
-//@   modifies t.failed, t.cleanups, elems(t.cleanups), t.ctx, t.cancelCtx, t.cleaning.v, t.draws, t.attempts, drawn, lockmode[addr(t.mu)], stream(t.s), propFalsified, cleanupSkipped, cancelled, discards
+//@   modifies t.failed, t.cleanups, elems(t.cleanups), t.ctx, t.cancelCtx, t.cleaning.v, t.draws, t.attempts, drawn, lockmode[addr(t.mu)], stream(t.s), propFalsified, cleanupSkipped, cancelled, discards, cleanupFalsified, cbFalsified
 
 // ---------------------------------------------------------------------------------------------
 // combinators.go: Custom
@@ -677,10 +693,13 @@ package rapid
 //@   ensures [C15] true
 //@   noframe "calls the user's generator function on a fresh inner T"
 //@   requires [C02] g.fn != nil
+//   The inner T hangs off the same TB as the enclosing one (not off the enclosing T: its context would then die with
+//   the enclosing invocation, C10) and reads the same stream.
+//@   at newT#0 assert [C10] arg0 == t.tb && arg1 == t.s
 //@   ensures [C02] now(t).failed == ""
 //@   ensures [C10,C11] fresh(now(t)) && len(now(t).cleanups) == 0 && now(t).ctx == nil && now(t).cancelCtx == nil
 //@   panics any [C02]: true
-//@   modifies drawn, stream(t.s), cancelled
+//@   modifies drawn, stream(t.s), cancelled, cbFalsified
 
 // ---------------------------------------------------------------------------------------------
 // statemachine.go
@@ -697,7 +716,7 @@ package rapid
 //@   requires [C08] t.failed == "" && unlocked(t)
 //@   ensures [C02,C08] t.failed == "" && implies(skipped, invalid) && unlocked(t) && drawn >= old(drawn)
 //   An action counts as skipped only if it gave up before starting any Draw - then it has discarded nothing (C04).
-//@   ensures [C04,C08] implies(skipped, t.attempts == old(t.attempts) && discards == old(discards))
+//@   ensures [C04,C07,C08] implies(skipped, t.attempts == old(t.attempts) && discards == old(discards))
 //@   ensures [C04,C08] drawRely(t)
 //@   panics any [C02,C08]: unlocked(t) && implies(isInvalidData(panicval), t.failed != "") && drawRely(t)
 //@   modifies drawn, t.failed, t.cleanups, elems(t.cleanups), t.ctx, t.cancelCtx, t.draws, t.attempts, lockmode[addr(t.mu)], stream(t.s), discards
@@ -796,7 +815,7 @@ package rapid
 //@   ensures [C09] implies(result2, now(iter) > 0 && int64(untilG) < int64(now(total)) / int64(now(iter)) * 5)
 //@   at time.Until#0 set untilG = result
 //@   ensures [C01,C02] sawFailure == (result4 != nil)
-//@   modifies heap, drawn, runs, lastInit, sawFailure, lockmode, cancelled, cleanupSkipped, propFalsified, untilG, discards
+//@   modifies heap, drawn, runs, lastInit, sawFailure, lockmode, cancelled, cleanupSkipped, propFalsified, untilG, discards, cleanupFalsified, cbFalsified
 //@   at r.init#0 assert [C07] implies(valid + invalid == 0, arg0 == old(seed))
 //   Test cases within one run differ (C18): every case is seeded differently from the one before it.
 //@   at r.init#0 assert [C18] implies(valid + invalid > 0, arg0 != lastInit)
@@ -839,7 +858,7 @@ package rapid
 //@   ensures [C17] tbFailed == old(tbFailed) && tbErrors == old(tbErrors)
 //@   ensures [C17] implies(result1 != nil || result2 != nil, result1 != nil && !isInvalidData(result1.data))
 //@   ensures [C17] implies(now(err) != nil || now(version) != rapidVersion, result1 == nil && result2 == nil && len(result0) == 0)
-//@   modifies heap, drawn, lockmode, cancelled, cleanupSkipped, ioFailed, propFalsified, fsClosed, discards
+//@   modifies heap, drawn, lockmode, cancelled, cleanupSkipped, ioFailed, propFalsified, fsClosed, discards, cleanupFalsified, cbFalsified
 
 // saveFailFile (C16): every crash point leaves either no file under the final name or a complete one.
 // The only call that creates or changes a file under a name the discovery pattern can match is os.Rename;
@@ -881,7 +900,7 @@ package rapid
 //@   noframe "runs the property"
 //@   assumes-pre !flags.debugvis
 //@   requires [C05] prop != nil && err != nil && err.traceback != "    <no error>\n" && rec.persist && recWF(rec)
-//@   modifies heap, drawn, lockmode, cancelled, cleanupSkipped, cmpAt, lessAt, propFalsified, discards
+//@   modifies heap, drawn, lockmode, cancelled, cleanupSkipped, cmpAt, lessAt, propFalsified, discards, cleanupFalsified, cbFalsified
 
 // The pass loop of the shrinker: the invariant holds at every pass call (each pass is under contract, see the end of
 // this file), and what is returned is the current best recording - on the normal path together with its error, on the
@@ -895,7 +914,7 @@ package rapid
 //@   requires [C05] forall(k, 0, len(s.rec.groups), !s.rec.groups[k].discard)
 //@   ensures [C01,C05] flags.debugvis == old(flags.debugvis)
 //@   ensures [C01,C05] arr(result0) == arr(s.rec.data) && off(result0) == off(s.rec.data) && len(result0) == len(s.rec.data)
-//@   modifies heap, drawn, lockmode, cancelled, cmpAt, lessAt, propFalsified, cleanupSkipped, discards
+//@   modifies heap, drawn, lockmode, cancelled, cmpAt, lessAt, propFalsified, cleanupSkipped, discards, cleanupFalsified, cbFalsified
 //@   loop 0 invariant [C01,C05] shrInv(s) && !flags.debugvis
 //@   loop 1 invariant true
 
@@ -904,11 +923,13 @@ package rapid
 //@ ghost ffFalsified Bool
 // ffTried: number of fail files doCheck has replayed so far
 //@ ghost ffTried (_ BitVec 64)
+//@ ghost globbed Bool
 
 //@ func doCheck
 //@   noframe "runs the property"
 //@   defines !ffFalsified
 //@   defines ffTried == 0
+//@   defines !globbed
 //@   requires [C09] 0 <= checks && checks <= math.MaxInt/10
 //@   requires [C17] prop != nil && !tbFailed && !searched && !sawFailure
 //@   ensures [C06,C17] implies(searched, result4 == "")
@@ -916,19 +937,23 @@ package rapid
 //@   ensures [C07] implies(searched && (result6 != nil || result7 != nil), result3 == lastInit)
 //@   ensures [C09] implies(result6 == nil && result7 == nil, searched && result3 == 0 && result4 == "")
 //@   ensures [C02,C17] tbFailed == old(tbFailed) && tbErrors == old(tbErrors)
-//@   modifies heap, drawn, runs, lastInit, searched, sawFailure, lockmode, cancelled, ffFalsified, cleanupSkipped, propFalsified, runesWritten, ioFailed, fsClosed, cmpAt, lessAt, untilG, ffTried, discards
-//@   at findBug#0 assert [C17] seed == old(seed) && checks == old(checks) && !tbFailed
+//@   modifies heap, drawn, runs, lastInit, searched, sawFailure, lockmode, cancelled, ffFalsified, cleanupSkipped, propFalsified, runesWritten, ioFailed, fsClosed, cmpAt, lessAt, untilG, ffTried, discards, globbed, cleanupFalsified, cbFalsified
+//@   at findBug#0 assert [C07,C17,C18] seed == old(seed) && checks == old(checks) && !tbFailed
 //@   at failFilePattern#0 assert [C06] arg0 == tbNameOf(tb)
+//   The test's own fail-file directory is searched whenever the caller asks for it, whether or not an explicit
+//   -rapid.failfile was given as well (C06, C17).
+//@   at filepath.Glob#0 set globbed = true
+//@   at findBug#0 assert [C06,C17] implies(globFailFiles, globbed)
 //@   at checkFailFile#0 set ffFalsified = result1 != nil
 //   Every fail file found is replayed before the random search starts (C06: the saved failure is found and replayed
 //   first, whatever other - stale, foreign, no longer valid - files sort before it; C17: those are just skipped).
 //@   at checkFailFile#0 set ffTried = ffTried + 1
 //@   at findBug#0 assert [C06,C17] ffTried == len(failfiles)
-//@   at findBug#0 assert [C02,C09] !ffFalsified
+//@   at findBug#0 assert [C02,C06,C09] !ffFalsified
 //@   at findBug#0 set searched = true
 //@   at newRandomBitStream#0 assert [C07] arg0 == lastInit && arg1
-//@   loop 0 invariant [C17] seed == old(seed) && checks == old(checks) && tbFailed == old(tbFailed) && tbErrors == old(tbErrors) && !searched && -1 <= rangeindex && rangeindex < len(failfiles)
-//@   loop 0 invariant [C02,C09] !ffFalsified
+//@   loop 0 invariant [C07,C17,C18] seed == old(seed) && checks == old(checks) && tbFailed == old(tbFailed) && tbErrors == old(tbErrors) && !searched && -1 <= rangeindex && rangeindex < len(failfiles)
+//@   loop 0 invariant [C02,C06,C09] !ffFalsified
 //@   loop 0 invariant [C06,C17] ffTried == rangeindex + 1
 
 // Without -rapid.seed the base seed is the Sum64 of a maphash.Hash allocated for this very call: a zero Hash picks
@@ -944,7 +969,7 @@ package rapid
 //@   noframe "runs the property"
 //@   requires prop != nil
 //@   ensures tbFailed == old(tbFailed) && tbErrors == old(tbErrors)
-//@   modifies heap, drawn, lockmode, cancelled, cleanupSkipped, propFalsified, discards
+//@   modifies heap, drawn, lockmode, cancelled, cleanupSkipped, propFalsified, discards, cleanupFalsified, cbFalsified
 
 //@ func checkTB
 //@   noframe "runs the property"
@@ -956,11 +981,16 @@ package rapid
 //@   ensures [C09] tbErrors == old(tbErrors)
 //@   panics goexit [C02,C06,C09,C16]: tbFailed && tbErrors == old(tbErrors) + 1 && fsRenames <= old(fsRenames) + 1
 //@   ensures [C06,C16] fsRenames <= old(fsRenames) + 1
-//@   modifies heap, drawn, runs, lastInit, searched, sawFailure, lockmode, cancelled, tbFailed, tbErrors, fsWritten, fsClosed, fsRenamed, fsTmpName, fsTmpDir, fsRenamedAtCreate, fsRenames, runesWritten, capturedOut, cleanupSkipped, ffFalsified, propFalsified, ioFailed, cmpAt, lessAt, untilG, joinedG, fsOtherCreate, ffTried, discards
+//@   modifies heap, drawn, runs, lastInit, searched, sawFailure, lockmode, cancelled, tbFailed, tbErrors, fsWritten, fsClosed, fsRenamed, fsTmpName, fsTmpDir, fsRenamedAtCreate, fsRenames, runesWritten, capturedOut, cleanupSkipped, ffFalsified, propFalsified, ioFailed, cmpAt, lessAt, untilG, joinedG, fsOtherCreate, ffTried, discards, cleanupFalsified, globbed, cbFalsified
 //@   at captureTestOutput#0 set capturedOut = arr(result)
 //@   at saveFailFile#0 assert [C06,C16] fsRenames == old(fsRenames) && arr(arg2) == capturedOut
 //   The fail file is saved under the directory and name derived from the very test name that doCheck globs for.
 //@   at failFileName#0 assert [C06] arg0 == tbNameOf(tb)
+//   The failure message names the failure of the minimised test case (err2) and the number of test cases that
+//   passed before it (C01, C09); "flaky" is said only when the two tracebacks differ.
+//@   at tb.Errorf#1 assert [C01,C09] bvOf(arg1[0]) == valid && refOf(arg1[1]) == err2
+//@   at tb.Errorf#2 assert [C01,C09] bvOf(arg1[0]) == valid && refOf(arg1[1]) == err2
+//@   at tb.Errorf#3 assert [C01] tbOf(err1) != tbOf(err2)
 //   The seed printed in the reproduction hint is the seed doCheck returned (C07), wherever the hint mentions one.
 //@   at fmt.Sprintf#0 assert [C07] bvOf(arg1[1]) == seed
 //@   at fmt.Sprintf#2 assert [C07] bvOf(arg1[0]) == seed
@@ -983,7 +1013,7 @@ package rapid
 //@   requires [C13] prop != nil
 //@   ensures [C13] now(err) == nil && tbFailed == old(tbFailed)
 //@   panics goexit [C13]: true
-//@   modifies heap, drawn, lockmode, cancelled, tbFailed, tbSkipped, cleanupSkipped, propFalsified, discards
+//@   modifies heap, drawn, lockmode, cancelled, tbFailed, tbSkipped, cleanupSkipped, propFalsified, discards, cleanupFalsified, cbFalsified
 //@   at newBufBitStream#0 assert [C13] !arg1 && len(arg0) == (old(len(input)) + 7) / 8
 //@   at newBufBitStream#0 assert [C13] forall(j, 0, len(arg0), arg0[j] == fuzzWords[j])
 //@   at binary.LittleEndian.Uint64#0 ensure [C13] trig(len(buf)) || !trig(len(buf))
@@ -1152,7 +1182,7 @@ package rapid
 //@   panics testError [C01]: flags.debugvis == old(flags.debugvis) && refOf(panicval) == now(err2)
 //@   ensures [C01,C05] flags.debugvis == old(flags.debugvis)
 //@   ensures [C01,C05] arr(s.rec.groups) == old(arr(s.rec.groups)) || fresh(arr(s.rec.groups)) || arr(s.rec.groups) == nil
-//@   modifies heap, drawn, lockmode, cancelled, cmpAt, lessAt, cleanupSkipped, propFalsified, discards
+//@   modifies heap, drawn, lockmode, cancelled, cmpAt, lessAt, cleanupSkipped, propFalsified, discards, cleanupFalsified, cbFalsified
 
 // ---------------------------------------------------------------------------------------------
 // Reachability (C18, C12): witnessed scenarios. For every max and every v <= max there is a geometric draw n
@@ -1213,6 +1243,9 @@ package rapid
 //@   nosafety "package initialisation is only checked for the integer kind table"
 //@   panics any: true
 //@   noframe "initialises package variables"
+//   The frames hidden at the top of a traceback are exactly the five re-raising literals (C05: hiding more merges
+//   distinct failure sites - e.g. failOnError is what tells "failed, then skipped" from a plain skip).
+//@   after-store tracebackBlacklist assert [C05] len(tracebackBlacklist) == 5
 //@   after-store integerKindToInfo assert [C03,C18] integerKindToInfo["Int8"].signed && integerKindToInfo["Int8"].smin == math.MinInt8 && integerKindToInfo["Int8"].smax == math.MaxInt8
 //@   after-store integerKindToInfo assert [C03,C18] integerKindToInfo["Int16"].signed && integerKindToInfo["Int16"].smin == math.MinInt16 && integerKindToInfo["Int16"].smax == math.MaxInt16
 //@   after-store integerKindToInfo assert [C03,C18] integerKindToInfo["Int32"].signed && integerKindToInfo["Int32"].smin == math.MinInt32 && integerKindToInfo["Int32"].smax == math.MaxInt32
@@ -1232,6 +1265,7 @@ package rapid
 // rejected (its bits are discarded from the recording) must leave no trace in the value being built, otherwise
 // a replay of the pruned recording yields another map.
 //@ ghost rejectedAttempt Bool
+//@ ghost storedThisStep Bool
 
 //@ func genAnyMap$1
 //@   captures [C04,C15] keyGen, valGen, typ
@@ -1239,10 +1273,14 @@ package rapid
 //@   nosafety "reflection calls are abstracted"
 //@   ensures [C04] true
 //@   panics any: true
-//@   modifies heap, drawn, lastWord, rejectedAttempt, stream(t.s), onceDone, onceIn, discards
+//@   modifies heap, drawn, lastWord, rejectedAttempt, storedThisStep, stream(t.s), onceDone, onceIn, discards
 //@   at repeat.more#0 set rejectedAttempt = false
 //@   at repeat.reject#0 set rejectedAttempt = true
-//@   at m.SetMapIndex#0 assert [C04] !rejectedAttempt
+//@   at m.SetMapIndex#0 assert [C01,C04] !rejectedAttempt
+//   ... in either order: a step that stores into the map is not rejected afterwards
+//@   at repeat.more#0 set storedThisStep = false
+//@   at m.SetMapIndex#0 set storedThisStep = true
+//@   at repeat.reject#0 assert [C01,C04] !storedThisStep
 //@   loop 0 invariant [C04] repeatInv(repeat) && groupUsed(repeat)
 
 //@ func genUintNNoReject@reach
@@ -1296,7 +1334,7 @@ package rapid
 //@   ensures [C10] len(t.cleanups) == 0 && t.ctx == nil && t.cancelCtx == nil && !cleaning(t) && unlocked(t)
 //@   ensures [C10] 1 <= result1 && result1 <= exampleMaxTries
 //@   panics any [C10]: len(t.cleanups) == 0 && t.ctx == nil && t.cancelCtx == nil && !cleaning(t) && unlocked(t)
-//@   modifies drawn, t.failed, t.cleanups, elems(t.cleanups), t.ctx, t.cancelCtx, t.cleaning.v, t.draws, t.attempts, cancelled, lockmode[addr(t.mu)], stream(t.s), onceDone, onceIn, discards
+//@   modifies drawn, t.failed, t.cleanups, elems(t.cleanups), t.ctx, t.cancelCtx, t.cleaning.v, t.draws, t.attempts, cancelled, lockmode[addr(t.mu)], stream(t.s), onceDone, onceIn, discards, cbFalsified
 //@   loop 0 invariant [C10] 1 <= i && i <= exampleMaxTries && unlocked(t) && ctxInv(t) && !cleaning(t)
 
 //@ func (*Generator).Example
@@ -1306,7 +1344,7 @@ package rapid
 //@   at example#0 assert [C10] clean(arg1) && unlocked(arg1) && fresh(arg1)
 //@   at example#0 assert [C04,C07] hasType(arg1.s, randomBitStream) && !deref(arg1.s, randomBitStream).persist
 //@   at newRandomBitStream#0 assert [C04,C07] implies(len(seed) > 0, arg0 == seed[0]) && !arg1
-//@   modifies heap, drawn, lockmode, cancelled, onceDone, onceIn, discards
+//@   modifies heap, drawn, lockmode, cancelled, onceDone, onceIn, discards, cbFalsified
 
 // ---------------------------------------------------------------------------------------------
 // make.go: the kind switch of Make (C03: "the requested dynamic type for Make"). dynKind(g) is the reflect.Kind of
@@ -1355,7 +1393,7 @@ package rapid
 //@   requires [C01,C05] shrInv(s)
 //@   ensures [C01,C05] shrInv(s) && flags.debugvis == old(flags.debugvis)
 //@   panics testError [C01,C05]: flags.debugvis == old(flags.debugvis)
-//@   modifies heap, drawn, lockmode, cancelled, cmpAt, lessAt, propFalsified, cleanupSkipped, discards
+//@   modifies heap, drawn, lockmode, cancelled, cmpAt, lessAt, propFalsified, cleanupSkipped, discards, cleanupFalsified, cbFalsified
 //@   loop 0 invariant [C01,C05] shrInv(s) && flags.debugvis == old(flags.debugvis)
 
 //@ func (*shrinker).lowerFloatHack
@@ -1365,7 +1403,7 @@ package rapid
 //@   requires [C01,C05] shrInv(s)
 //@   ensures [C01,C05] shrInv(s) && flags.debugvis == old(flags.debugvis)
 //@   panics testError [C01,C05]: flags.debugvis == old(flags.debugvis)
-//@   modifies heap, drawn, lockmode, cancelled, cmpAt, lessAt, propFalsified, cleanupSkipped, discards
+//@   modifies heap, drawn, lockmode, cancelled, cmpAt, lessAt, propFalsified, cleanupSkipped, discards, cleanupFalsified, cbFalsified
 //@   loop 0 invariant [C01,C05] shrInv(s) && flags.debugvis == old(flags.debugvis)
 
 //@ func (*shrinker).removeGroupsAndLower
@@ -1375,7 +1413,7 @@ package rapid
 //@   requires [C01,C05] shrInv(s)
 //@   ensures [C01,C05] shrInv(s) && flags.debugvis == old(flags.debugvis)
 //@   panics testError [C01,C05]: flags.debugvis == old(flags.debugvis)
-//@   modifies heap, drawn, lockmode, cancelled, cmpAt, lessAt, propFalsified, cleanupSkipped, discards
+//@   modifies heap, drawn, lockmode, cancelled, cmpAt, lessAt, propFalsified, cleanupSkipped, discards, cleanupFalsified, cbFalsified
 //@   loop 0 invariant [C01,C05] shrInv(s) && flags.debugvis == old(flags.debugvis)
 //@   loop 1 invariant [C01,C05] shrInv(s) && flags.debugvis == old(flags.debugvis)
 
@@ -1386,7 +1424,7 @@ package rapid
 //@   requires [C01,C05] shrInv(s)
 //@   ensures [C01,C05] shrInv(s) && flags.debugvis == old(flags.debugvis)
 //@   panics testError [C01,C05]: flags.debugvis == old(flags.debugvis)
-//@   modifies heap, drawn, lockmode, cancelled, cmpAt, lessAt, propFalsified, cleanupSkipped, discards
+//@   modifies heap, drawn, lockmode, cancelled, cmpAt, lessAt, propFalsified, cleanupSkipped, discards, cleanupFalsified, cbFalsified
 //@   loop 0 invariant [C01,C05] shrInv(s) && flags.debugvis == old(flags.debugvis)
 //@   loop 1 invariant [C01,C05] shrInv(s) && flags.debugvis == old(flags.debugvis)
 //@   loop 2 invariant [C01,C05] shrInv(s) && flags.debugvis == old(flags.debugvis)
@@ -1398,7 +1436,7 @@ package rapid
 //@   requires [C01,C05] shrInv(s)
 //@   ensures [C01,C05] shrInv(s) && flags.debugvis == old(flags.debugvis)
 //@   panics testError [C01,C05]: flags.debugvis == old(flags.debugvis)
-//@   modifies heap, drawn, lockmode, cancelled, cmpAt, lessAt, propFalsified, cleanupSkipped, discards
+//@   modifies heap, drawn, lockmode, cancelled, cmpAt, lessAt, propFalsified, cleanupSkipped, discards, cleanupFalsified, cbFalsified
 //@   loop 0 invariant [C01,C05] shrInv(s) && flags.debugvis == old(flags.debugvis)
 //@   loop 1 invariant [C01,C05] shrInv(s) && flags.debugvis == old(flags.debugvis) && fresh(arr(groups)) && arr(groups) != arr(s.rec.groups)
 
@@ -1410,7 +1448,7 @@ package rapid
 //@   requires [C01,C05] shrInv(s)
 //@   ensures [C01,C05] shrInv(old(s)) && flags.debugvis == old(flags.debugvis)
 //@   panics testError [C01,C05]: flags.debugvis == old(flags.debugvis)
-//@   modifies heap, drawn, lockmode, cancelled, cmpAt, lessAt, propFalsified, cleanupSkipped, discards
+//@   modifies heap, drawn, lockmode, cancelled, cmpAt, lessAt, propFalsified, cleanupSkipped, discards, cleanupFalsified, cbFalsified
 
 //@ func (*shrinker).minimizeBlocks
 //@   trusted "follows from the contract of its function literal (proved above: the candidate is a fresh copy, the invariant is kept) and from minimize calling nothing but that literal"
@@ -1589,3 +1627,9 @@ package rapid
 //@   at (time.Time).Add#1 set fbExt = result.ext
 //@   ensures [C09] implies(!dlOK, result.wall == fbWall && result.ext == fbExt)
 //@   modifies dlOK, fbWall, fbExt
+
+// Range arguments of the collection and string constructors (C03): a maximum >= 0 below the minimum is refused - the
+// generators' preconditions (min <= max whenever max >= 0) rest on this check.
+//@ func assertValidRange
+//@   ensures [C03] max < 0 || min <= max
+//@   panics any: true
